@@ -680,6 +680,65 @@ def run_reborn(res, c):
                 gc.collect()
             res["nontrivial"].append(hash(("reborn", deco, body)) & 0xFFFFFFFFFFFF)
     run_failing_pairs(res, c, decos)
+    run_finished_futures(res, c)
+
+
+def run_finished_futures(res, c):
+    """Stacked decorators over an async_proxy whose body hands back an ALREADY finished future (ConstFuture /
+    ErrorFuture) computed from state that changes between calls: nothing is in flight after the call, so a later call
+    with equal arguments runs the body again (deduplicate, aretry) - through every asynchronous convention."""
+    import asynq
+    from asynq import asynq as A, async_call, async_proxy, ConstFuture
+    from asynq.futures import ErrorFuture
+    from asynq.tools import DeduplicateDecorator, aretry, deduplicate
+
+    class Boom(Exception):
+        pass
+
+    stacks = {"deduplicate": lambda f: deduplicate()(f), "aretry": lambda f: aretry(KeyError, max_tries=2)(f)}
+    for sname, stack in sorted(stacks.items()):
+        for bound in ("function", "method"):
+            for first_fails in (False, True):
+                asynq.scheduler.reset()
+                DeduplicateDecorator.tasks.clear()
+                state = {"v": 1, "runs": 0}
+
+                def body(k):
+                    state["runs"] += 1
+                    if first_fails and state["v"] == 1:
+                        return ErrorFuture(Boom((k, state["v"])))
+                    return ConstFuture((k, state["v"]))
+
+                if bound == "function":
+                    f = stack(async_proxy()(body))
+                else:
+                    K = type("K", (object,), {"m": stack(async_proxy()(lambda self, k: body(k)))})
+                    f = K().m
+
+                @A()
+                def yielder(k):
+                    return (yield f.asynq(k))
+
+                convs = [(".asynq().value()", lambda: f.asynq("k").value()), ("yield .asynq()", lambda: yielder("k")), ("async_call", lambda: async_call(f, "k"))]
+                for cname, call in convs:
+                    for v in (1, 2, 3):
+                        state["v"] = v
+                        got = outcome(call)
+                        res["evaluations"] += 1
+                        c["calls_of_stacked_decorators_over_finished_futures"] = c.get("calls_of_stacked_decorators_over_finished_futures", 0) + 1
+                        want = ("exc", ("Boom", (("k", 1),))) if (first_fails and v == 1) else ("val", ("k", v))
+                        ok = got == want or (got[0] == "exc" and want[0] == "exc" and got[1][0] == "Boom")
+                        if not ok and len(res["violations"]) < 8:
+                            res["violations"].append(
+                                {
+                                    "oracle": "stale-outcome-of-an-earlier-call",
+                                    "mechanism": "stale-outcome-of-an-earlier-call/" + sname,
+                                    "detail": {"decorators": sname + " over async_proxy", "bound": bound, "convention": cname, "state": v, "expected": repr(want), "observed": repr(got)[:160]},
+                                    "case": {"mode": "reborn", "cases": [0, 1]},
+                                }
+                            )
+                res["nontrivial"].append(hash(("finished", sname, bound, first_fails)) & 0xFFFFFFFFFFFF)
+    DeduplicateDecorator.tasks.clear()
 
 
 def run_failing_pairs(res, c, decos):
